@@ -649,6 +649,10 @@ class H5Writer:
                 elif isinstance(entity, IntegerData):
                     out_values = np.round(out_values).astype("int32")
 
+                elif isinstance(entity, TextData) and len(values) == 0:
+                    out_values = np.asarray(values).astype("O")
+                    kwargs["dtype"] = h5py.special_dtype(vlen=str)
+
                 elif isinstance(entity, TextData) and not isinstance(values[0], bytes):
                     out_values = np.char.encode(values, encoding="utf-8").astype("O")
 
